@@ -13,6 +13,7 @@ This private submodule is *not* intended for importation by downstream callers.
 
 # ....................{ IMPORTS                            }....................
 from beartype.door._cls.doorsuper import TypeHint
+from beartype._util.cls.pep.clspep3119 import is_type_subclass_or_nominal
 from beartype.typing import TYPE_CHECKING
 
 # ....................{ SUBCLASSES                         }....................
@@ -89,5 +90,5 @@ class ClassTypeHint(TypeHint):
             branch._is_args_ignorable and
             # The unsubscripted type originating this class is a subclass of the
             # unsubscripted type originating that class.
-            issubclass(self._origin, branch._origin)
+            is_type_subclass_or_nominal(self._origin, branch._origin)
         )
